@@ -1,6 +1,8 @@
 import LPVerif.Generated.KernprofOptions
 import LPVerif.Lemmas.Argv
 import LPVerif.Bridge.Argv
+import LPVerif.Model.ArgFlow
+import LPVerif.Generated.ArgFlow
 /-!
 # C15 — kernprof never takes the program's arguments for its own
 
@@ -94,6 +96,74 @@ theorem kernprof_no_abbrev : Generated.kernprofAllowAbbrev = false := by decide
 theorem kernprof_parser (args : List String) :
     parseCmdWith Generated.kernprofAllowAbbrev Generated.kernprofOptions args = parseCmd Generated.kernprofOptions args := by
   rw [kernprof_no_abbrev]; rfl
+
+/-! ## the statements that are in the tree now (`Model.ArgFlow`)
+
+`parseCmd` summarises `kernprof._main` up to `sys.argv = …` by hand.  The translator emits, in source order, every statement
+of `main` and `_main` that writes `args`, `module`, `post_args`, `options`, `options.args`, `options.script`, `options.outfile` or
+`sys.argv` (`Generated.kernprofArgFlow`; a write in a form it does not know is `.unknown`, which has no meaning).  The two
+theorems below make the theorems above statements about that sequence: an inserted filter, a reordered `+= post_args`, a dropped
+`options.script = module` changes the emitted list and `emitted_flow_is_reference` no longer checks. -/
+section flow
+open LPVerif.ArgFlow
+
+def resOf (r : Except Err Cmd) : Except Err Result :=
+  match r with
+  | .ok c => .ok { cmd := c, outfile := c.outfile }
+  | .error e => .error e
+
+/-- the statement sequence emitted from the tree is the one the model was written against -/
+theorem emitted_flow_is_reference : Generated.kernprofArgFlow = reference := by decide
+
+/-- running the statements one by one — pre-parse, parse, re-attach the cut-off arguments, take the module as the script, default
+    the output file, set `sys.argv` — gives, for **every** option table and argument list, exactly what `parseCmdWith` says:
+    same error, or same options, target, `sys.argv[1:]` and output file -/
+theorem reference_flow_eq_model (abbr : Bool) (table : List OptSpec) (args : List String) :
+    run abbr table reference args = some (resOf (parseCmdWith abbr table args)) := by
+  unfold run reference parseCmdWith
+  simp only [runFrom, exec1]
+  rcases hpp : pp args with e | ⟨pre, m, post⟩
+  · simp [resOf]
+  · simp only []
+    rcases hd : decodeOpts table {} pre with e | ⟨o, rest⟩
+    · cases m <;> simp [resOf, hd]
+    · cases m with
+      | some mm =>
+        simp [resOf, hd, finish, Cmd.outfile, Opts.outfile]
+        rfl
+      | none =>
+        cases rest with
+        | nil => simp [resOf, hd]
+        | cons sc rest' =>
+          cases ha : (if abbr = true then firstAmbiguous table rest' else none) with
+          | some tok => simp [resOf, ha, hd]
+          | none =>
+            simp [resOf, ha, hd, finish, Cmd.outfile, Opts.outfile]
+            try rfl
+
+/-- **the tree's own statements deliver the program's arguments**: what `kernprof.main` as it is now assigns to `sys.argv`, with
+    kernprof's own option table and parser settings, is what `parseCmd` computes -/
+theorem kernprof_flow (args : List String) :
+    run Generated.kernprofAllowAbbrev Generated.kernprofOptions Generated.kernprofArgFlow args
+      = some (resOf (parseCmd Generated.kernprofOptions args)) := by
+  rw [emitted_flow_is_reference, reference_flow_eq_model, kernprof_parser]
+
+/-- `module_mode`, restated on the emitted statements -/
+theorem module_mode_flow (o r : List String) (m : String) (opts : Opts)
+    (ho1 : "-m" ∉ o) (ho2 : "--" ∉ o) (hm : m ≠ "--") (hdec : decodeOpts Generated.kernprofOptions {} o = .ok (opts, [])) :
+    ∃ f, run Generated.kernprofAllowAbbrev Generated.kernprofOptions Generated.kernprofArgFlow (o ++ "-m" :: m :: r)
+      = some (.ok { cmd := { opts := opts, isModule := true, target := m, argv := r }, outfile := f }) := by
+  rw [kernprof_flow, module_mode Generated.kernprofOptions o r m opts ho1 ho2 hm hdec]
+  exact ⟨_, rfl⟩
+
+/-- an unknown write to one of the tracked names has no meaning: nothing is claimed about such a tree -/
+example : run false exTable [.callMain, .unknown, .preParse, .parseArgs, .appendPost, .scriptFromModule, .defaultOutfile, .setArgv] ["x"] = none := by
+  decide +kernel
+/-- the order matters to the meaning: re-attaching the cut-off arguments before parsing loses them -/
+example : run false exTable [.callMain, .defaultArgs, .preParse, .appendPost, .parseArgs, .scriptFromModule, .defaultOutfile, .setArgv] ["-m", "mod", "a"] = none := by
+  decide +kernel
+
+end flow
 
 /-- **F-C15a (repaired)**: with argparse's default (`allow_abbrev=True`), on kernprof's own option table, a program argument that is
     an ambiguous prefix of two long options (`--pro`: `--prof-mod`, `--prof-imports`) after a script named without `--` aborted the
